@@ -323,6 +323,12 @@ fn judge(case: &Case, script: &Script, p: u16, msgs: &[Msg], order: &[usize], re
             if evicted {
                 break;
             }
+            // timers: a buffered write whose catch-up took longer than the buffer timeout expires (its ask is answered
+            // with an error); that is the replica's stated behaviour, and how long a catch-up takes is not ours to bound
+            let expired = case.timers && res.replies.iter().any(|(m, r)| matches!((m, r), (Msg::T(k), Reply::Err(_)) if *k == i));
+            if expired {
+                break;
+            }
             // the conflicting transaction X claimed T_i's sequence first: T_i is then the rejected one (which of
             // two claimants of a sequence is "the" conflicting write depends on who came first), and nothing
             // behind it can be applied
@@ -422,7 +428,7 @@ fn run_case(case: &Case, out: &mut WorkerOut) {
             orders.retain(|o| o == only);
         }
         rt.block_on(async {
-            if db_c.is_none() || *next_partition as usize + orders.len() >= PARTS as usize {
+            if db_c.is_none() || *next_partition as usize + 2 * orders.len() >= PARTS as usize {
                 fresh_pair(node, db_c, db_r, conf_r).await;
                 *next_partition = 0;
             }
@@ -439,10 +445,32 @@ fn run_case(case: &Case, out: &mut WorkerOut) {
                     *next_partition += 1;
                     futs.push(async move { (p, order.clone(), run_order(nodep, dc, dr, cr, p, &Script::new(&case.lens, case.stream_per_tx), case, &messages(case), order).await) });
                 }
+                let mut recheck: Vec<Vec<usize>> = Vec::new();
                 for (p, order, r) in futures::future::join_all(futs).await {
                     out.transitions += order.len() as u64;
                     out.evals += 1;
                     match r {
+                        Err(e) => vcommon::machinery_fail(&format!("C12 harness: {e}")),
+                        Ok(res) => {
+                            if case.timers {
+                                // verdicts that rest on wall-clock timers are only reported if a second execution, run
+                                // alone, shows them again
+                                let mut tmp = WorkerOut { collected: Some(vec![]), ..Default::default() };
+                                judge(case, &script, p, &msgs, &order, &res, &mut tmp);
+                                if tmp.collected.as_ref().unwrap().iter().any(|(k, _, _)| k.ends_with("/timers") || k.contains("after-horizon")) {
+                                    recheck.push(order);
+                                    continue;
+                                }
+                            }
+                            judge(case, &script, p, &msgs, &order, &res, out)
+                        }
+                    }
+                }
+                for order in recheck {
+                    out.count("timer_mode_verdicts_rechecked", 1);
+                    let p = *next_partition;
+                    *next_partition += 1;
+                    match run_order(nodep, dc, dr, cr, p, &Script::new(&case.lens, case.stream_per_tx), case, &messages(case), &order).await {
                         Err(e) => vcommon::machinery_fail(&format!("C12 harness: {e}")),
                         Ok(res) => judge(case, &script, p, &msgs, &order, &res, out),
                     }
@@ -491,7 +519,8 @@ pub fn cases(thorough: bool) -> Vec<Case> {
                     }
                 }
                 for (missing, dup, x, catchup) in extras {
-                    if !thorough && (buffer == 2 || stream_per_tx) && (x.is_some() || dup.is_some()) {
+                    // quick: conflicts meet the small buffer (eviction and conflict handling interact), duplicates do not
+                    if !thorough && ((stream_per_tx && (x.is_some() || dup.is_some())) || (buffer == 2 && dup.is_some())) {
                         continue;
                     }
                     if !thorough && buffer == 2 && stream_per_tx {
